@@ -246,7 +246,7 @@ def run(ctx):
     ivar = loop.target.id
     tgt = st.targets[0]
     lpname = tgt.value.id if isinstance(tgt.value, ast.Name) else None
-    row_store = core.unparse(tgt.slice).replace(" ", "") in ("%s,:" % ivar, ivar, "(%s,slice(None,None,None))" % ivar)
+    row_store = core.unparse(tgt.slice).replace(" ", "").strip("()") in ("%s,:" % ivar, ivar)
     x = sym_array("position", (3,))
     sgo = Obj("mysg", nsymop=Rat.const(2), rot=sym_array("R", (2, 3, 3)), trans=sym_array("t", (2, 3)))
     val = Evaluator(mod, inline=set()).eval(st.value, {fn.args.args[0].arg: x, sgvar: sgo, ivar: Rat.const(1)})
